@@ -555,4 +555,45 @@ theorem classOk_getitem {d : Ds} (hi : Inv d) (n : Nat) :
   · rename_i h; rw [h]; exact hi.2.2.2.1
   · exact classOk_registry n
 
+/-! ### subclass methods returning datasets -/
+
+theorem dpReduce_inv {d r : Ds} {k : DpKind} (h : dpReduce d k = .ok r) : Inv r := by
+  unfold dpReduce at h
+  split at h
+  · simp at h
+  · refine fromArray_inv ?_ h
+    intro dat hdat
+    cases k with
+    | mean =>
+      simp only at hdat
+      cases hd : d.data with
+      | none => rw [hd] at hdat; simp at hdat
+      | some x =>
+        rw [hd] at hdat; simp at hdat; subst hdat
+        exact build_data_length _ _
+    | max => simp at hdat
+    | median => simp at hdat
+
+theorem virtualImage_inv {d r : Ds} {ms : List Nat} {m : List Val} (h : virtualImage d ms m = .ok r) : Inv r := by
+  unfold virtualImage at h
+  split at h
+  · simp at h
+  · split at h
+    · simp at h
+    · refine fromArray_inv ?_ h
+      intro dat hdat
+      cases hd : d.data with
+      | none => rw [hd] at hdat; simp at hdat
+      | some x =>
+        rw [hd] at hdat; simp at hdat; subst hdat
+        exact build_data_length _ _
+
+theorem frame_inv {d r : Ds} {k : Nat} (h : frame d k = .ok r) : Inv r := by
+  unfold frame at h
+  split at h
+  · simp at h
+  · split at h
+    · exact getitem_inv h
+    · simp at h
+
 end QuantemModel.Dataset
